@@ -1,5 +1,6 @@
 import Driver.Util
 import AslModel.Model.Pos
+import AslModel.Model.PosChan
 import AslModel.Generated.ErrPos
 /-! Driver modes of C20.
 
@@ -14,6 +15,17 @@ request : `g<0|1> n<0|1> f<0|1> <mainfile> <real> <faults> tok*`
   * `tok`      `P<p>` plain, `F<p>:<id>` fault, `C:<name>` call, `R:<n>` REPT, `I:<k>:<a;b;c>` IRP/IRPN,
                `S:<hex>` IRPC, `W:<n>` WHILE, `U:<file>` INCLUDE – each of the last six followed by its body and `]`
 answer  : `n=<k> model=<eq|ne> spec=<eq|ne> ms=<eq|ne> ids=<planted ids in the order the model reports them> [at=<i> m=<hex> s=<hex> r=<hex>]`
+
+mode `c20c` – one assembled program per request line, with listing options and `LISTING`/`SAVE`/`RESTORE` lines
+request : `g<0|1> n<0|1> f<0|1> l<0|1|2> <mainfile> <con> <chan> <lst> <faults> tok*`
+  * `l`       listing: 0 none, 1 standard output (`-l`, `-L -olist !1`), 2 a file (`-L`, `-olist`),
+              3 standard output which is the error channel as well (`-l -E !1`)
+  * `<con>`   message prefixes found on standard output when it is not the error channel (`-` = none)
+  * `<chan>`  message prefixes found on the error channel (when standard output is the error channel *and* carries the
+              listing the two cannot be told apart: everything is in `<chan>`)
+  * `<lst>`   message prefixes found in the listing file, `~` = no listing file was requested
+  * `<faults>` as for `c20` with a sixth field: `D` faulty line, `L<v>` LISTING v, `V` SAVE, `W` RESTORE
+answer  : `n=<k> model=<eq|ne> spec=<eq|ne> ms=<eq|ne> off=<messages raised while the listing was off> idcon=… idchan=… [miss=<hex> …]`
 
 mode `c20x` – one EXPECT scenario per request line
 request : `<real> ev*`   ev = `E:<n;n;…>` | `X` | `O:<n>`   (message numbers of asmerr.c from Generated/ErrPos)
@@ -36,13 +48,26 @@ structure FaultInfo where
   warn : Bool
   num : Option Nat
   rep : Bool
+  /-- `none`: a faulty line; else the listing-control statement the line is -/
+  ctl : Option AslModel.PosChan.Role := none
+
+def parseCtl (s : String) : Option (Option AslModel.PosChan.Role) :=
+  if s == "D" then some none
+  else if s == "V" then some (some .save)
+  else if s == "W" then some (some .restore)
+  else if s.startsWith "L" then (s.drop 1).toString.toNat?.map fun v => some (.listing v)
+  else none
 
 def parseFault (s : String) : Option FaultInfo :=
   match s.splitOn ":" with
   | [i, c, w, n, r] =>
     match i.toNat? with
-    | some id => some ⟨id, c.toNat?, w == "1", n.toNat?, r == "1"⟩
+    | some id => some ⟨id, c.toNat?, w == "1", n.toNat?, r == "1", none⟩
     | none => none
+  | [i, c, w, n, r, k] =>
+    match i.toNat?, parseCtl k with
+    | some id, some ctl => some ⟨id, c.toNat?, w == "1", n.toNat?, r == "1", ctl⟩
+    | _, _ => none
   | _ => none
 
 def hexStr (s : String) : String := hex s.toUTF8.toList
@@ -121,6 +146,71 @@ def handle (line : String) : String :=
           let i := min (firstDiff mOut realL) (min (firstDiff sOut realL) (firstDiff mOut sOut))
           base ++ s!" at={i} m={hexStr (mOut.getD i "<none>")} s={hexStr (sOut.getD i "<none>")} r={hexStr (realL.getD i "<none>")}"
       | _, _ => "bad-request"
+    | _, _, _, _ => "bad-request"
+  | _ => "bad-request"
+
+/-! ### positions on the channels (`c20c`) -/
+
+open AslModel.PosChan in
+/-- the event a planted line is: role and payload (id, message prefix); `none` for a faulty line that stays silent in this run -/
+def mkEvent (look : Nat → Option FaultInfo) (id : Nat) (pre : FaultInfo → String) : Option (Role × (Nat × String)) :=
+  match look id with
+  | some fi =>
+    match fi.ctl with
+    | some r => some (r, (id, pre fi))
+    | none => if fi.rep then some (.diag fi.warn, (id, pre fi)) else none
+  | none => some (.diag false, (id, "?"))
+
+def hexList (l : List String) : String := if l.isEmpty then "-" else ",".intercalate (l.map hexStr)
+def idList (l : List Nat) : String := if l.isEmpty then "-" else ",".intercalate (l.map toString)
+
+open AslModel.PosChan in
+def handleC (line : String) : String :=
+  match words line with
+  | g :: n :: f :: l :: main :: con :: chan :: lst :: faults :: toks =>
+    match flag g 'g', flag n 'n', flag f 'f', parseBody toks with
+    | some gnu, some numeric, some fixed, some (body, []) =>
+      let un (s : String) : Option (List String) := if s == "-" then some [] else (s.splitOn ",").mapM unhexStr
+      let lm : Option AslModel.ErrChan.ListMode :=
+        if l == "l0" then some .none else if l == "l1" || l == "l3" then some .console else if l == "l2" then some .file else none
+      let fl := if faults == "-" then some [] else (faults.splitOn ",").mapM parseFault
+      match un con, un chan, (if lst == "~" then some none else (un lst).map some), fl, lm with
+      | some rCon, some rChan, some rLst, some fl, some lm =>
+        let cfg : Cfg := ⟨fixed⟩
+        let opts : Opts := { gnu := gnu, numeric := numeric }
+        let look (id : Nat) : Option FaultInfo := fl.find? (·.id == id)
+        let mEvs := (run cfg main body).filterMap fun (id, a, gp) =>
+          mkEvent look id fun fi => wrErrorPrefix gnu (if gnu then gp else a) fi.col fi.warn
+            (match fi.num with | some k => if numeric then " #" ++ toString k else "" | none => "")
+        let sEvs := (positions main body).filterMap fun (id, path) =>
+          mkEvent look id fun fi => msgPrefix opts path fi.col fi.warn fi.num
+        let ccfg : AslModel.ErrChan.Cfg := { listMode := lm }
+        let mOut := mrun ccfg {} mEvs
+        let mCon := onStream .con mOut
+        let mChan := onStream .chan mOut
+        let mLst := onStream .lst mOut
+        let want := wantShown sEvs
+        let wantL := wantListed sEvs
+        let txt (x : List (Nat × String)) := x.map (·.2)
+        -- standard output carries listing and error channel: one stream
+        let merged := l == "l3"
+        let modelEq := (if merged then rCon.isEmpty && txt (shown mOut) == rChan else txt mCon == rCon && txt mChan == rChan) &&
+          (match rLst with | some r => txt mLst == r | none => true)
+        let specEq := interleaved (txt want) rCon rChan &&
+          (match rLst with | some r => r == txt wantL | none => true)
+        let msEq := shown mOut == want && (lm != .file || mLst == wantL)
+        let eqs (b : Bool) := if b then "eq" else "ne"
+        let off := ((named {} sEvs).filter (fun x => !x.2)).length
+        let idc := if merged then [] else mCon.map (·.1)
+        let idh := if merged then (shown mOut).map (·.1) else mChan.map (·.1)
+        let base := s!"n={rCon.length + rChan.length} model={eqs modelEq} spec={eqs specEq} ms={eqs msEq} off={off} idcon={idList idc} idchan={idList idh} idlst={idList (mLst.map (·.1))}"
+        if modelEq && specEq then base else
+          let miss := missing (txt want) (rCon ++ rChan)
+          let extra := missing (rCon ++ rChan) (txt want)
+          let missL := match rLst with | some r => missing (txt wantL) r | none => []
+          let extraL := match rLst with | some r => missing r (txt wantL) | none => []
+          base ++ s!" nmiss={miss.length} miss={hexList (miss.take 3)} nextra={extra.length} extra={hexList (extra.take 3)} lmiss={hexList (missL.take 3)} lextra={hexList (extraL.take 3)} mcon={hexList ((txt mCon).take 40)} mchan={hexList ((txt mChan).take 40)}"
+      | _, _, _, _, _ => "bad-request"
     | _, _, _, _ => "bad-request"
   | _ => "bad-request"
 
